@@ -15,7 +15,7 @@ W0 = W(0)
 ASYM = {
     "rsa512a": ("RSA", 512, "~"), "rsa1024a": ("RSA", 1024, "~"), "rsa2040a": ("RSA", 2040, "~"),
     "rsa2047a": ("RSA", 2047, "~"), "rsa2048a": ("RSA", 2048, "~"), "rsa2048b": ("RSA", 2048, "~"),
-    "rsa2056a": ("RSA", 2056, "~"), "rsa3072a": ("RSA", 3072, "~"), "rsa3072b": ("RSA", 3072, "~"),
+    "rsa2052a": ("RSA", 2052, "~"), "rsa2056a": ("RSA", 2056, "~"), "rsa3072a": ("RSA", 3072, "~"), "rsa3072b": ("RSA", 3072, "~"),
     "rsa4096a": ("RSA", 4096, "~"),
     "p256a": ("EC", 256, "P-256"), "p256b": ("EC", 256, "P-256"), "p384a": ("EC", 384, "P-384"),
     "p384b": ("EC", 384, "P-384"), "p521a": ("EC", 521, "P-521"), "p521b": ("EC", 521, "P-521"),
@@ -99,8 +99,9 @@ def c16_walks(nwalks, length):
                     live = True
                 elif x < 0.55:
                     idx = rnd.choice([0, 0, 1, 2, max(0, count - 1), count, count + 3])
-                    ops.append(dict(op="ItemFree", ring=0, index=idx))
-                    if idx < count:
+                    hi = rnd.choice([0, 0, 0, 0, 1, 2**20])
+                    ops.append(dict(op="ItemFree", ring=0, index=idx, hi=hi))
+                    if idx < count and hi == 0:
                         count -= 1
                 elif x < 0.62:
                     ops.append(dict(op="FreeBad", ring=0))
@@ -109,7 +110,7 @@ def c16_walks(nwalks, length):
                     ops.append(dict(op="FreeAll", ring=0))
                     count = 0
                 elif x < 0.76:
-                    ops.append(dict(op="ItemGet", ring=0, index=rnd.choice([0, 1, 2, 3, 5, 8, count, 60])))
+                    ops.append(dict(op="ItemGet", ring=0, index=rnd.choice([0, 1, 2, 3, 5, 8, count, 60]), hi=rnd.choice([0, 0, 0, 1, 3, 2**31 - 1])))
                 elif x < 0.84:
                     ops.append(dict(op="Find", ring=0, kid=rnd.choice(["k1", "k2", "k3", "k", "k11", ""])))
                 elif x < 0.92:
@@ -133,6 +134,8 @@ def c15_to_callbacks(scripts, seed):
                dict(op="Verify", c=0, tok=forge("none"))]
 
 
+OBJ2_TEXT = '{"r":1.5,"n":null,"o":{"x":1},"l":[true]}'
+OBJ2_M = [mem("l", "arr", "[true]"), mem("n", "null", "null"), mem("o", "obj", '{"x":1}'), mem("r", "real", "real")]
 OBJ_TEXT = '{"a":1,"c":"z"}'
 OBJ_M = [mem("a", "int", "", W(1)), mem("c", "str", "z")]
 
@@ -140,7 +143,7 @@ OBJ_M = [mem("a", "int", "", W(1)), mem("c", "str", "z")]
 def c15_walks(nwalks, length):
     def gen(seed):
         rnd = random.Random(seed * 104729 + 15)
-        names = ["a", "b", "c", "iat", "typ", "", "~"]
+        names = ["a", "b", "c", "r", "n", "o", "l", "iat", "typ", "", "~"]
         for _ in range(nwalks):
             ops = [dict(op="BNew", b=0)]
             for _ in range(length):
@@ -157,9 +160,11 @@ def c15_walks(nwalks, length):
                     elif t == "bool":
                         v = val("bool", n, rnd.choice([0, 1]), rep)
                     else:
-                        c = rnd.choice(["obj", "obj", "arr", "malformed", "scalar", "null", "emptyobj"])
+                        c = rnd.choice(["obj", "obj", "obj2", "arr", "malformed", "scalar", "null", "emptyobj"])
                         if c == "obj":
                             v = val("json", n, OBJ_TEXT, rep, "obj", OBJ_M, OBJ_TEXT)
+                        elif c == "obj2":
+                            v = val("json", n, OBJ2_TEXT, rep, "obj", OBJ2_M, '{"l":[true],"n":null,"o":{"x":1},"r":1.5}')
                         elif c == "emptyobj":
                             v = val("json", n, "{}", rep, "obj", [], "{}")
                         elif c == "arr":
@@ -511,7 +516,8 @@ def c11_random(ncases, per_case):
                     if r < 0.55:
                         pass
                     elif r < 0.7 and t:
-                        t[rnd.randrange(len(t))] = rnd.choice([0x2e, 0x20, 0x2a, 0x80, 0xff, 0x0a, 0x40, 0x5b, 0x60, 0x7b, 0x3a, 0x2c])
+                        t[rnd.randrange(len(t))] = rnd.choice([0x2e, 0x20, 0x2a, 0x80, 0xff, 0x0a, 0x40, 0x5b, 0x60, 0x7b, 0x3a, 0x2c,
+                                                                0xc1, 0xe1, 0xb0, 0xab, 0xaf, 0xad, 0xdf, rnd.randrange(0x80, 0x100)])
                     elif r < 0.8:
                         while len(t) % 4 != 1:
                             t.append(rnd.choice(_B64U))
